@@ -18,3 +18,4 @@ import PysersicModel.Prob.Sky
 import PysersicModel.Prob.Prior
 import PysersicModel.Prob.Fitter
 import PysersicModel.Opt.MapDict
+import PysersicModel.Prob.MultiBand
